@@ -65,6 +65,12 @@ func (g *pg) update(name, sig string, peers []string, mnow int64) {
 	if g.readFaults && g.r.Intn(6) == 0 {
 		rf = " readfault=1" // the deposit lookup of the balance read-back fails during this keep-alive
 	}
+	if rf == "" && len(peers) > 0 && g.r.Intn(7) == 0 {
+		// the store fails some of the per-peer credits of this keep-alive (any error, not only `unregistered`): the
+		// client pays exactly for the credits that were given out, the keep-alive itself goes through
+		k := g.r.Intn(len(peers))
+		rf = " failpeer=" + JoinC(append([]string{peers[k]}, peers[:g.r.Intn(k+1)]...))
+	}
 	g.emit(fmt.Sprintf("update %s %s %s block=%d peers=%s mnow=%s%s", name, g.n(), sig, g.r.Intn(50), JoinC(peers), TTok(mnow), rf))
 }
 
@@ -118,7 +124,12 @@ func genPoolMoney(r *rand.Rand, idx int, emit func(string)) {
 				during = fmt.Sprintf(" during=%s:%s", pick(r, []string{"n0", "n0", "n1", "n6"}), pick(r, []string{"1000", "1", "777", "18446744073709551629"}))
 			}
 			emit(fmt.Sprintf("withdraw %s %s %s settle=%s%s", w, g.n(), pick(r, []string{"good", "good", "good", "good", "bad", "otherkey"}), pick(r, []string{"ok", "ok", "ok", "fail", "failonce"}), during))
-			if r.Intn(2) == 0 {
+			if r.Intn(4) == 0 {
+				g.dump()
+				// the deposit cannot be looked up while the next withdrawal is handled (timelocked, or the contract
+				// RPC is down): it is refused and nothing is paid - whatever an earlier lookup returned
+				emit(fmt.Sprintf("withdraw %s %s good settle=ok lookupfault=%s", w, g.n(), pick(r, []string{"rpc", "rpc", "timelock"})))
+			} else if r.Intn(2) == 0 {
 				g.dump()
 				// an immediate repeat of the withdrawal must not pay the same earnings again
 				emit(fmt.Sprintf("withdraw %s %s good settle=ok", w, g.n()))
